@@ -156,7 +156,9 @@ func (i *Interpreter) Exec(ctx context.Context, bs match.Bindings, props core.St
 	if props == nil {
 		env["props"] = map[string]interface{}{}
 	} else {
-		env["props"] = map[string]interface{}(props.Copy())
+		// StepProps.Copy is shallow, and we don't want a script
+		// to be able to change a caller's nested property value.
+		env["props"] = copyProps(props)
 	}
 
 	if bs != nil {
@@ -366,6 +368,39 @@ func (i *Interpreter) Exec(ctx context.Context, bs match.Bindings, props core.St
 	exe.Bs = result
 
 	return exe, nil
+}
+
+// copyProps copies the structure (maps and arrays, recursively) of
+// the given props so that code cannot modify the caller's props in
+// place.  Any other value (say a context or a crew) is passed along
+// as is.
+func copyProps(props core.StepProps) map[string]interface{} {
+	acc := make(map[string]interface{}, len(props))
+	for p, v := range props {
+		acc[p] = copyPropValue(v)
+	}
+	return acc
+}
+
+func copyPropValue(x interface{}) interface{} {
+	switch vv := x.(type) {
+	case map[string]interface{}:
+		acc := make(map[string]interface{}, len(vv))
+		for p, v := range vv {
+			acc[p] = copyPropValue(v)
+		}
+		return acc
+	case core.StepProps:
+		return copyProps(vv)
+	case []interface{}:
+		acc := make([]interface{}, len(vv))
+		for i, v := range vv {
+			acc[i] = copyPropValue(v)
+		}
+		return acc
+	default:
+		return x
+	}
 }
 
 // canonicalize is an abomination
